@@ -312,6 +312,32 @@ def units_event(rng):
         g.set_length_units("inches")
     r0 = rng.choice([0.1, 0.5, 1.0, 0.25, 2.0, 0.02])
     g.set_resolution(r0)
+    if rng.random() < 0.35:
+        # the device link fails on the G20/G21 statement and the caller repeats the call (added after seed C12f: the
+        # resolution was rescaled before the write and the units recorded after it -- rescaled twice on the retry)
+        from gscrib.excepts import DeviceError
+        from gscrib.writers import BaseWriter
+        armed = [True]
+
+        class _F(BaseWriter):
+            def connect(self):
+                return self
+
+            def disconnect(self, wait=True):
+                pass
+
+            def write(self, statement):
+                if armed[0]:
+                    armed[0] = False
+                    raise DeviceError("link failed on this statement")
+
+            def flush(self):
+                pass
+        g.add_writer(_F())
+        try:
+            g.set_length_units(b)
+        except DeviceError:
+            pass
     g.set_length_units(b)
     r1 = g.state.resolution
     ev = record({"shape": "polyline", "res": 1.0, "ccw": True, "start": [0.0, 0.0, 0.0], "target": [1.0, 0.0, 0.0], "controls": [[1.0, 0.0, 0.0]]})
